@@ -70,21 +70,25 @@ TLoad ==
   /\ Is("Load") /\ ~Has(Ev, "nil") /\ ~Has(Ev.m, "nil")
   /\ LET want == LoadWith(file, Ev.name, 44)
          impl == LoadWith(file, Ev.name, 40)
-     IN /\ want.ok
-        /\ \/ Diff(want, Ev) = {}
-           \/ /\ "KdRsrcOffByFour" \in Deviations
-              /\ Diff(want, Ev) # {} /\ Diff(impl, Ev) = {}
-              /\ Dev("KdRsrcOffByFour")
-           \/ /\ Diff(want, Ev) # {}
-              /\ ~("KdRsrcOffByFour" \in Deviations /\ Diff(impl, Ev) = {})
-              /\ PrintT(<<"MISMATCH", l, Diff(want, Ev)>>)
-              /\ FALSE
+     IN \/ want.ok /\ Diff(want, Ev) = {}
+        \/ /\ "KdRsrcOffByFour" \in Deviations /\ want.ok /\ impl.ok
+           /\ Diff(want, Ev) # {} /\ Diff(impl, Ev) = {}
+           /\ Dev("KdRsrcOffByFour")
+        \/ /\ want.ok /\ Diff(want, Ev) # {}
+           /\ ~("KdRsrcOffByFour" \in Deviations /\ impl.ok /\ Diff(impl, Ev) = {})
+           /\ PrintT(<<"MISMATCH", l, Diff(want, Ev)>>)
+           /\ FALSE
+        \/ /\ ~want.ok                                   \* the loader returned something for a name it must refuse
+           /\ PrintT(<<"MISMATCH", l, {"loaded_" \o want.why}>>)
+           /\ FALSE
   /\ UNCHANGED file
 
 \* the loader refuses a name that is not a kernel of the file, and "" when there are several
 TFatal ==
   /\ Is("Fatal")
-  /\ LET want == LoadWith(file, Ev.name, 44) IN ~want.ok /\ want.why \in {"notfound", "ambiguous"}
+  /\ LET want == LoadWith(file, Ev.name, 44)
+     IN \/ ~want.ok /\ want.why \in {"notfound", "ambiguous"}
+        \/ want.ok /\ PrintT(<<"MISMATCH", l, {"refused"}>>) /\ FALSE
   /\ UNCHANGED file
 
 TNext == TReset \/ TFile \/ TLoad \/ TFatal
